@@ -6,7 +6,7 @@ open Vio
                         { F name mode nd { I|O (0 | 1 guard) target (0 | 1 target) } } (0 | 1 prio) count }
      target: T c f na { E e | S lo hi st } | M na e… | N | Z
      expr:   c int | g i | l i | b op e e | n e | t e e e
-   mode "inst": prints  wf=<0|1> n=<count> <instances sorted by class, then parameters>
+   mode "inst": prints  wf=<0|1> (wf_first_match) n=<count> <instances sorted by class, then parameters>
    mode "keys": prints  wf=<0|1> <inst>=<make_key>:<key_print> … (same order) *)
 
 let toks = ref [||] and pos = ref 0
@@ -104,7 +104,7 @@ let () =
       let mode = (match words hd with m :: _ -> m | [] -> "inst") in
       toks := Array.of_list (words prog); pos := 0;
       let (p, names) = p_program () in
-      let wf = wf_program p in
+      let wf = wf_first_match p in   (* first match wins; wf_program implies it *)
       let ids = List.sort cmp_tid (instances p) in
       let wfs = "wf=" ^ (if wf then "1" else "0") in
       if mode = "keys" then begin
